@@ -58,3 +58,6 @@ claim("C10", "exploration", "property-based testing of MCSSearch.find against RD
 claim("C12", "fault_enumeration", "model-based testing over run/crash/rerun histories on a shared cache directory (reference = the same run with caching off) + exhaustive enumeration of every byte prefix of a cache file",
       "Generated histories of runs (overlapping inputs, batch sizes, thresholds, column names), crash states of existing cache files (deleted, empty, truncated, leftover temp file, foreign JSON) and reruns, each completed run compared with its cache-off result; every byte prefix of the cache file of several batches is fed to CacheManager.load_cache and a stride of them end-to-end.",
       TB + "; crash model = file absent / empty / byte prefix / leftover temp file (rename-based writes make other torn states unreachable)", "DESIGN.md 4/C12")
+claim("C11", "fault_enumeration", "fault-injection property-based testing: generated and enumerated fault plans (internal exception / real ThreadPool timeout with late-writing abandoned thread) over MCS search and fragment-analysis jobs; differential against the fault-free run of the same batch",
+      "For fixed batches every single-job fault (exception, timeout) and every 'all conditions of one reaction fail' plan is enumerated; Hypothesis draws multi-fault plans with delays 60-600 ms on generated batches. Unaffected rows must equal the fault-free baseline, affected rows must be solved-and-balanced or declined unchanged with a reason, no row may be lost. Faults are injected in-process (n_jobs=1) by a ThreadPool shim and by raising inside the wrapped search calls; OS scheduling and worker-process death are not modelled.",
+      TB + "; timing-dependent late writes are exercised with real threads but a narrower race window than the delay grid can be missed; violations must reproduce on 1 of 5 replays", "DESIGN.md 4/C11")
